@@ -614,6 +614,19 @@ func c19Deposit(g *rng, total uint64) sdk.Int {
 		return sdk.NewIntFromUint64(1 << 63).SubRaw(int64(g.intn(2)))
 	case 10:
 		return sdk.NewInt(int64(1 + g.intn(40)))
+	case 11, 12:
+		// an 18-decimals token: allocations between 2^53 and 2^63, where binary64 has a spacing of 2 .. 1024
+		// and the float-based share of a farmer can be rounded above the allocation
+		switch g.intn(4) {
+		case 0:
+			return sdk.NewIntFromUint64(1 << uint(53+g.intn(10))).MulRaw(int64(total)).AddRaw(int64(1 + g.intn(1000)))
+		case 1:
+			return sdkmath.NewIntWithDecimal(int64(1+g.intn(9000)), 15).AddRaw(int64(g.intn(100000)))
+		case 2:
+			return sdkmath.NewIntWithDecimal(int64(1+g.intn(900)), 16).MulRaw(int64(total)).AddRaw(int64(1 + 2*g.intn(500)))
+		default:
+			return sdk.NewIntFromUint64(g.next()>>uint(1+g.intn(10)) | 1)
+		}
 	default:
 		return sdk.NewInt(int64(1+g.intn(100000)) * g.pickI(1, 1000, 1000000, 1000000000))
 	}
